@@ -1,6 +1,9 @@
 """property id -> check function(prop, tier, seed, replay) -> exit code"""
 import layout_props
+import rel_props
 
 CHECKS = {}
 for _p in layout_props.FAMILIES:
     CHECKS[_p] = layout_props.run_unary
+for _p in rel_props.FAMILIES:
+    CHECKS[_p] = rel_props.run_relational
